@@ -44,7 +44,7 @@ pub struct Plan {
 }
 
 pub fn plan(args: &Args, n_corpus: usize) -> Plan {
-    let n = args.budget("inputs", 2000, 200_000) as usize;
+    let n = args.budget("inputs", 2000, 40_000) as usize;
     let seed = args.seed;
     let thorough = args.thorough();
     let mut specs: Vec<Json> = vec![];
@@ -84,6 +84,11 @@ pub fn plan(args: &Args, n_corpus: usize) -> Plan {
         specs.push(json!({"g": "template", "k": k, "mode": 2, "r": 1}));
         specs.push(json!({"g": "template", "k": k, "mode": 2, "r": 2, "tight": true}));
     }
+    // multi-file: modules referencing each other across files (file-level cycles on an acyclic module graph)
+    specs.push(json!({"g": "file_cycle_example"}));
+    for r in 0..6 {
+        specs.push(json!({"g": "module_graph", "r": r}));
+    }
     let fixed = specs.len();
     let n_random = n.saturating_sub(fixed);
     for j in 0..n_random {
@@ -94,6 +99,11 @@ pub fn plan(args: &Args, n_corpus: usize) -> Plan {
         let mut rng = Rng::for_case(seed, "C11plan", 0);
         rng.shuffle(&mut specs);
         specs.truncate(n.max(1));
+    }
+    if args.get("inject").is_some() {
+        // sensitivity self-test: one input carrying the marker the worker misbehaves on
+        specs.insert(0, json!({"g": "sources", "class": "inject", "kind": "inject_marker", "limits": "default",
+            "sources": [{"path": "src/top.veryl", "text": format!("module {MARKER} {{\n    var a: logic;\n    assign a = 1;\n}}\n")}]}));
     }
     Plan { seed, specs, n_random: n_random as u64 }
 }
@@ -189,9 +199,14 @@ fn line_mutation(text: &str, rng: &mut Rng) -> String {
 
 fn pick_file<'a>(rng: &mut Rng, corpus: &'a [CorpusFile]) -> &'a CorpusFile {
     // prefer small files (mutants of small files are cheaper and more often still parse)
-    let a = &corpus[rng.usize(corpus.len())];
-    let b = &corpus[rng.usize(corpus.len())];
-    if a.text.len() <= b.text.len() || rng.chance(1, 4) { a } else { b }
+    let mut best = &corpus[rng.usize(corpus.len())];
+    for _ in 0..2 {
+        let b = &corpus[rng.usize(corpus.len())];
+        if b.text.len() < best.text.len() {
+            best = b;
+        }
+    }
+    if rng.chance(1, 8) { &corpus[rng.usize(corpus.len())] } else { best }
 }
 
 fn random_case(seed: u64, j: u64, corpus: &[CorpusFile]) -> Realised {
@@ -253,6 +268,7 @@ fn random_case(seed: u64, j: u64, corpus: &[CorpusFile]) -> Realised {
             }
             one("template_mutation", &format!("template_mutation:{}", TEMPLATES[k].0), base)
         }
+        19 if (j / 20) % 2 == 0 => module_graph(&mut rng),
         _ => {
             // multi-file set: 2..4 files, one of them possibly mutated; duplicates on purpose sometimes
             let n = 2 + rng.usize(3);
@@ -281,6 +297,47 @@ fn random_case(seed: u64, j: u64, corpus: &[CorpusFile]) -> Realised {
                 depth: 0,
             }
         }
+    }
+}
+
+/// An acyclic graph of small modules / packages scattered over 2..4 files, so that files
+/// reference each other mutually although no module does.
+fn module_graph(rng: &mut Rng) -> Realised {
+    let n_files = 2 + rng.usize(3);
+    let n_mods = 3 + rng.usize(6);
+    let mut files: Vec<String> = vec![String::new(); n_files];
+    let with_pkg = rng.chance(1, 3);
+    if with_pkg {
+        let f = rng.usize(n_files);
+        files[f].push_str("package Pk {\n    const W: u32 = 2;\n    type T = logic<W>;\n}\n");
+    }
+    for m in 0..n_mods {
+        let f = rng.usize(n_files);
+        let mut body = String::new();
+        // edges only to higher-numbered modules: the module graph is acyclic
+        let mut k = 0;
+        for t in (m + 1)..n_mods {
+            if rng.chance(1, 3) {
+                body.push_str(&format!("    var w{k}: logic;\n    inst u{k}: M{t} (o: w{k});\n"));
+                k += 1;
+            }
+        }
+        if with_pkg && rng.chance(1, 2) {
+            body.push_str("    var p: Pk::T;\n    assign p = Pk::W;\n");
+        }
+        if k == 0 {
+            body.push_str("    assign o = 1;\n");
+        } else {
+            body.push_str("    assign o = w0;\n");
+        }
+        files[f].push_str(&format!("module M{m} (\n    o: output logic,\n) {{\n{body}}}\n"));
+    }
+    Realised {
+        class: "multi_file_graph".into(),
+        kind: "multi_file_graph".into(),
+        sources: files.into_iter().enumerate().map(|(k, t)| (format!("src/g{k}.veryl"), t)).collect(),
+        limits: "default".into(),
+        depth: 0,
     }
 }
 
@@ -343,6 +400,20 @@ pub fn realise(spec: &Json, plan: &Plan, corpus: &[CorpusFile]) -> Realised {
                 r.limits = "tight".into();
             }
             r
+        }
+        "file_cycle_example" => Realised {
+            class: "multi_file_graph".into(),
+            kind: "multi_file_graph".into(),
+            sources: vec![
+                ("src/f1.veryl".into(), "module A (\n    o: output logic,\n) {\n    inst c: C (o);\n}\nmodule E (\n    o: output logic,\n) {\n    assign o = 0;\n}\n".into()),
+                ("src/f2.veryl".into(), "module C (\n    o: output logic,\n) {\n    assign o = 1;\n}\nmodule D (\n    o: output logic,\n) {\n    inst e: E (o);\n}\n".into()),
+            ],
+            limits: "default".into(),
+            depth: 0,
+        },
+        "module_graph" => {
+            let mut rng = Rng::for_case(plan.seed, "C11graph", spec["r"].as_u64().unwrap_or(0));
+            module_graph(&mut rng)
         }
         "rand" => random_case(plan.seed, spec["j"].as_u64().unwrap(), corpus),
         _ => one("unknown", "unknown", String::new()),
@@ -803,7 +874,7 @@ pub fn main(args: Args) {
                 run2.eval();
                 run2.violation(&sigv, &format!("worker died ({kind:?}, signal {signal:?}) in stage {}: {stderr}", stage["stage"].as_str().unwrap_or("?")), case2.clone());
             }
-            Outcome::CpuTimeout { stage, cpu_s } => run2.inconclusive(format!("replay: CPU budget exceeded in {stage} after {cpu_s:.0}s")),
+            Outcome::CpuTimeout { stage, cpu_s, .. } => run2.inconclusive(format!("replay: CPU budget exceeded in {stage} after {cpu_s:.0}s")),
             Outcome::WallTimeout { .. } => run2.inconclusive("replay: wall watchdog".into()),
             Outcome::Res(_) => {}
         });
@@ -914,7 +985,7 @@ pub fn main(args: Args) {
             let sn = stage["stage"].as_str().unwrap_or("?").to_string();
             sus2.lock().unwrap().push(Suspect { i, what: "died", death: Some(kind), signal, stage, stage_name: sn, stderr });
         }
-        Outcome::CpuTimeout { stage, cpu_s } => {
+        Outcome::CpuTimeout { stage, cpu_s, .. } => {
             run2.eval();
             sus2.lock().unwrap().push(Suspect { i, what: "cpu_timeout", death: None, signal: None, stage: json!({"stage": stage, "cpu_s": cpu_s}), stage_name: stage, stderr: String::new() });
         }
